@@ -11,6 +11,14 @@ def run(tier, seed):
     t0 = time.time()
     v = vlib.Verdict(PROP)
     with vlib.scratch(PROP) as d:
+        # the store under concurrency (Get = two critical sections around the fetch, Store = one): design check with two negative controls
+        mc = vlib.tlc("MC_BlockStoreConc", cwd=d, workers=2, timeout=600)
+        if mc.status != "ok":
+            raise vlib.InfraError("MC_BlockStoreConc: %r" % mc)
+        for neg in ("reindex", "fallthrough"):
+            rn = vlib.tlc("MC_BlockStoreConc", cfg="MC_BlockStoreConc_%s.cfg" % neg, cwd=d, workers=2, timeout=600)
+            if rn.status != "violation":
+                raise vlib.InfraError("MC_BlockStoreConc negative control %s not refuted" % neg)
         tr = os.path.join(d, "trace.ndjson")
         args = ["c13", "-out", tr, "-seed", seed]
         args += ["-forests", 500, "-maxblocks", 9, "-ops", 30] if tier == "quick" else ["-forests", 12000, "-maxblocks", 14, "-ops", 45]
@@ -73,9 +81,12 @@ def run(tier, seed):
         "evaluations": len(rows), "distinct_nontrivial": ops.get("forest", 0),
         "rule": "seeded random forests (<= %d blocks: forks, equal views on different branches, view gaps, parents outside the universe) plus the structured "
                 "equivocation-next-to-gap family; per forest a sequence of store (with duplicates) / get (local and through the real RequestBlockQF with lying "
-                "replies) / extends / commit (real Committer with a scripted commit rule); distinct = forests" % (9 if tier == "quick" else 14),
+                "replies; the requested block may arrive by another path while it is being fetched, the fetch answering or not) / extends / commit (real "
+                "Committer with a scripted commit rule); distinct = forests" % (9 if tier == "quick" else 14),
         "ops": ops, "commits_reporting_abandoned_blocks": nonempty_abort, "extends_true": ext_true,
         "conformance": "ok" if not drift else "drift at line %d" % drift,
+        "model_concurrent": {"module": "MC_BlockStoreConc", "states": mc.distinct, "negative_controls_refuted": 2},
+        "arrivals_during_fetch": sum(1 for x in rows if x["op"] == "store" and x.get("during") == "fetch"),
         "checker_cmd": cmd,
     }, time.time() - t0, violations=len(v.violations),
         assumptions=["Extends answers are judged only when every block the walk needs is stored or fetchable (DESIGN 6/C13)",
